@@ -257,7 +257,23 @@ class Prov:
                 return env[e.id]
             vals = self.assigns.get(e.id, [])
             if e.id in self.func.all_params:
-                # reassigned parameter (types = ensure_list(types)): the value is the parameter, possibly wrapped
+                # reassigned parameter: still "the parameter" only if every reassignment is position-preserving
+                # (types = ensure_list(types), xs = list(xs)); `extends = [extends]` makes index 0 address nothing.
+                busy = getattr(self, "_busy", set())
+                if e.id in busy or not vals:
+                    return ("param", e.id)
+                self._busy = busy | {e.id}
+                try:
+                    for v in vals:
+                        if isinstance(v, tuple):
+                            return ("opaque", "param-reassigned:" + e.id)
+                        w = v
+                        while isinstance(w, ast.Call) and isinstance(w.func, ast.Name) and w.func.id in ("list", "tuple") and len(w.args) == 1:
+                            w = w.args[0]
+                        if self.term(w, {}, depth + 1) != ("param", e.id):
+                            return ("opaque", "param-reassigned:" + e.id)
+                finally:
+                    self._busy = busy
                 return ("param", e.id)
             if len(vals) > 1 and all(isinstance(v, ast.Constant) for v in vals):
                 # a local that only ever holds constants (branch = "then" / branch = "else"): one term for the local
